@@ -1,0 +1,30 @@
+//go:build !verif
+
+/*
+   Copyright The containerd Authors.
+
+   Licensed under the Apache License, Version 2.0 (the "License");
+   you may not use this file except in compliance with the License.
+   You may obtain a copy of the License at
+
+       http://www.apache.org/licenses/LICENSE-2.0
+
+   Unless required by applicable law or agreed to in writing, software
+   distributed under the License is distributed on an "AS IS" BASIS,
+   WITHOUT WARRANTIES OR CONDITIONS OF ANY KIND, either express or implied.
+   See the License for the specific language governing permissions and
+   limitations under the License.
+*/
+
+// Package verifhook provides named observation points that are compiled in only
+// with the "verif" build tag; without the tag every function is empty.
+package verifhook
+
+// Enabled reports whether hooks are compiled in.
+const Enabled = false
+
+// SetHandler does nothing without the verif build tag.
+func SetHandler(f func(name string, args ...interface{})) {}
+
+// Point does nothing without the verif build tag.
+func Point(name string, args ...interface{}) {}
